@@ -3,6 +3,7 @@ package zygo
 import (
 	"fmt"
 	"reflect"
+	"sort"
 	"time"
 )
 
@@ -397,11 +398,15 @@ func TypeListFunction(env *Zlisp, name string, args []Sexp) (Sexp, error) {
 }
 
 func (env *Zlisp) ImportBaseTypes() {
-	for _, e := range GoStructRegistry.Builtin {
+	// bind (and thereby intern) the type names in sorted order: symbol
+	// numbers must not depend on Go's random map order.
+	for _, name := range sortedTypeNames(GoStructRegistry.Builtin) {
+		e := GoStructRegistry.Builtin[name]
 		env.AddGlobal(e.RegisteredName, e)
 	}
 
-	for _, e := range GoStructRegistry.Userdef {
+	for _, name := range sortedTypeNames(GoStructRegistry.Userdef) {
+		e := GoStructRegistry.Userdef[name]
 		// The registry is process-wide and also collects the type names of
 		// plain records made by earlier interpreters (e.g. "field", from the
 		// first struct declaration in this process). Such a name must not
@@ -413,6 +418,15 @@ func (env *Zlisp) ImportBaseTypes() {
 		}
 		env.AddGlobal(e.RegisteredName, e)
 	}
+}
+
+func sortedTypeNames(m map[string]*RegisteredType) []string {
+	names := make([]string, 0, len(m))
+	for name := range m {
+		names = append(names, name)
+	}
+	sort.Strings(names)
+	return names
 }
 
 func compareRegisteredTypes(a *RegisteredType, bs Sexp) (int, error) {
